@@ -95,12 +95,18 @@ def main():
     out = []
     w = out.append
     w('## 10. Validating the monitors: what was done and what came out\n')
-    w('1. **Silence.** Every check, quick tier, at VERIF_SEED 1..7, and the thorough tier at seeds 1..3, from fresh\n'
-      '   processes on the repaired tree (partly while eight sub-agents were running test suites on the same\n'
-      '   machine): no VIOLATION. `vp check` (fresh copy of the sandbox, setup + all quick commands): clean.\n'
-      '   What the sweeps did turn up were harness defects (section 6, "false alarms met while building") and one\n'
-      '   real-clock scenario that could not terminate (a fatal v1 configuration drawn by a generator bug), all\n'
-      '   corrected in the machinery.\n')
+    w('1. **Silence.** After every change of the harness the affected checks were run at several seeds, and the\n'
+      '   whole set repeatedly: with the final harness every check, quick tier, at VERIF_SEED 1..7 and 12, 13\n'
+      '   (earlier states also 8..11), and the thorough tier at seeds 1 and 2 (earlier states: 1..7), from fresh\n'
+      '   processes on the repaired tree, most of the time while seeding agents, mutant matrices or another sweep\n'
+      '   loaded the machine: no VIOLATION, no inconclusive exit. `vp check` (fresh copy of the sandbox, setup + all\n'
+      '   quick commands): clean. What the sweeps did turn up were defects of the machinery (section 6, "false alarms\n'
+      '   met while building"): each new workload or oracle was a new chance for one, and about one in three raised a\n'
+      '   false alarm on the unchanged tree at first - found by these sweeps, analysed down to the event, and corrected\n'
+      '   in the harness (never by loosening a check that was right). One sweep also found a cost problem rather than\n'
+      '   an alarm: scenarios of the harness that left goroutines behind made every later goroutine dump slower, and a\n'
+      '   thorough C07 run exceeded its wall limit (inconclusive); the scenarios now end what they started (2375 s ->\n'
+      '   277 s).\n')
     w('2. **Sensitivity, my own mutants** (`mutants/*.diff`, written while building each monitor; applied to a scratch\n'
       '   worktree by `tools/mutant.sh`, never to `/repo`). `tools/mutant_matrix.sh` runs each against the checks that\n'
       '   own the touched behaviour; result (quick tier; the 70 (mutant, check) pairs that had been caught were\n'
